@@ -11,7 +11,8 @@ def run(chk, replay=None):
     chk.rule = ("host counts n in 1..4 x failing host index k x fault kinds {HTTP 401/404/500, connection reset before headers, body cut after j bytes, payload that is not gzip, "
                 "payload with an over-long line, unwritable output path, cluster lookup failing} + success; library level (harness) and through the CLI; TMPDIR listed after every run; "
                 "non-trivial = distinct (n, k, fault) triples")
-    kinds = ['401', '404', '500', 'reset', 'cut0', 'cut7', 'cutmid', 'notgzip', 'toolong', 'outdir']
+    kinds = ['401', '404', '500', 'reset', 'cut0', 'cut7', 'cutmid', 'notgzip', 'toolong', 'outdir', 'empty200', 'onebyte', 'gzheader', 'emptygz', '204', '429']
+    not_a_fault = ('success', 'emptygz', '204')       # outcomes for which success may be reported; temp files must be gone all the same
     cases = []
     for n in ((1, 2, 3, 4) if th else (1, 3)):
         for k in range(n):
@@ -24,7 +25,11 @@ def run(chk, replay=None):
         for i in range(n):
             h = {'status': 200, 'body': base64.b64encode(good).decode(), 'cut': -1}
             if i == k:
-                if kind in ('401', '404', '500'): h['status'] = int(kind)
+                if kind in ('401', '404', '500', '204', '429'): h['status'] = int(kind)
+                elif kind == 'empty200': h['body'] = ''
+                elif kind == 'onebyte': h['body'] = base64.b64encode(b'\x1f').decode()
+                elif kind == 'gzheader': h['body'] = base64.b64encode(good[:10]).decode()
+                elif kind == 'emptygz': h['body'] = base64.b64encode(streamlib.gz_bytes(b'')).decode()
                 elif kind == 'reset': h['reset'] = True
                 elif kind == 'cut0': h['cut'] = 0
                 elif kind == 'cut7': h['cut'] = 7
@@ -41,7 +46,7 @@ def run(chk, replay=None):
         chk.count(); chk.traces += 1; chk.nontriv((n, k, kind)); chk.dist('fault_' + kind)
         case = {'hosts': n, 'failing_host': k, 'fault': kind, 'rc': r['rc'], 'stderr': r['stderr'].decode('utf-8', 'replace')[-300:], 'tmp_left': sorted(r['tmp'])}
         # model
-        if kind not in ('outdir', 'cluster_badjson', 'toolong', 'notgzip'):
+        if kind not in ('outdir', 'cluster_badjson', 'toolong', 'notgzip', 'empty200', 'onebyte', 'gzheader', 'emptygz', '204', '429'):
             logs = []
             for i, h in enumerate(hw):
                 body = base64.b64decode(h['body'])
@@ -56,7 +61,7 @@ def run(chk, replay=None):
                 chk.disagree('trace / status / temp files under a fault', case, {'trace': it, 'rc': r['rc'], 'tmp': len(r['tmp'])}, {'trace': mt, 'rc': m['status'], 'tmp': m['tmp_left']})
         if r['tmp']:
             chk.violate('downloaded log file left in the temporary directory', case, tags=['leak', kind])
-        if kind != 'success' and r['rc'] == 0:
+        if kind not in not_a_fault and r['rc'] == 0:
             chk.violate('fault injected but the run reported success', case, tags=['silent', kind])
         if kind == 'success' and r['rc'] != 0:
             chk.violate('fault-free Atlas run failed', case, tags=['failed'])
